@@ -19,9 +19,11 @@ import (
 	"os"
 	"sort"
 	"strings"
+	"sync"
 	"testing"
 	"time"
 
+	"github.com/nsqio/go-nsq"
 	"github.com/nsqio/nsq/internal/pqueue"
 	"github.com/nsqio/nsq/internal/util"
 )
@@ -715,4 +717,185 @@ func TestVerifUniqCorr(t *testing.T) {
 		}
 		out.Case(fmt.Sprintf("uniq %d %d %s", q, maxval, join(rs)), join(gs))
 	}
+}
+
+// ---------------------------------------------------------------------------------------------
+// TestVerifWallClock: the property as a client sees it, on a daemon with the default scan
+// interval. Only EARLY delivery fails (lower bounds taken before the request is sent, so they
+// are sound under any load); lateness is measured and reported.
+func TestVerifWallClock(t *testing.T) {
+	opts := NewOptions()
+	opts.Logger = nil
+	opts.LogLevel = LOG_FATAL
+	opts.DataPath = t.TempDir()
+	opts.MaxMsgTimeout = 3 * time.Second
+	opts.MaxReqTimeout = time.Hour
+	// queueScanLoop works on a cached channel list refreshed every QueueScanRefreshInterval (5 s by
+	// default): a channel created since the last refresh is not scanned until the next one (measured
+	// here with the default: every scenario ~5 s late). The scenarios create their channels on the
+	// fly, so refresh quickly; VERIF_WALL_DEFAULT_REFRESH=1 keeps the default to observe that effect.
+	if os.Getenv("VERIF_WALL_DEFAULT_REFRESH") == "" {
+		opts.QueueScanRefreshInterval = 100 * time.Millisecond
+	}
+	tcpAddr, _, nsqd := mustStartNSQD(opts)
+	defer nsqd.Exit()
+	rounds := vfEnvInt("VERIF_N", 2)
+	type result struct {
+		what  string
+		early time.Duration // > 0: delivered that much before it was allowed
+		late  time.Duration
+	}
+	resCh := make(chan result, 1000)
+	var wg sync.WaitGroup
+	r := vfNewRand(71)
+	scenario := func(kind string, idx int, d time.Duration) {
+		defer wg.Done()
+		defer func() {
+			if e := recover(); e != nil {
+				resCh <- result{what: fmt.Sprintf("%s#%d: harness error: %v", kind, idx, e), early: -1}
+			}
+		}()
+		topicName := fmt.Sprintf("vf_wall_%s_%d", kind, idx)
+		topic := nsqd.GetTopic(topicName)
+		topic.GetChannel("ch")
+		conn, err := mustConnectNSQD(tcpAddr)
+		if err != nil {
+			panic(err)
+		}
+		defer conn.Close()
+		conn.SetDeadline(time.Now().Add(20 * time.Second))
+		identify(nil, conn, map[string]interface{}{"msg_timeout": 1000}, frameTypeResponse)
+		sub(nil, conn, topicName, "ch")
+		nsq.Ready(1).WriteTo(conn)
+		recv := func() (*nsq.Message, time.Time) {
+			for {
+				resp, err := nsq.ReadResponse(conn)
+				if err != nil {
+					panic(err)
+				}
+				ft, data, _ := nsq.UnpackResponse(resp)
+				if ft == frameTypeResponse && string(data) == "_heartbeat_" {
+					nsq.Nop().WriteTo(conn)
+					continue
+				}
+				if ft != frameTypeMessage {
+					panic(fmt.Sprintf("unexpected frame %d %q", ft, data))
+				}
+				m, err := nsq.DecodeMessage(data)
+				if err != nil {
+					panic(err)
+				}
+				return m, time.Now()
+			}
+		}
+		body := []byte(fmt.Sprintf("%s-%d", kind, idx))
+		report := func(what string, got time.Time, notBefore time.Time, expected time.Time) {
+			res := result{what: fmt.Sprintf("%s#%d %s", kind, idx, what)}
+			if got.Before(notBefore) {
+				res.early = notBefore.Sub(got)
+			}
+			res.late = got.Sub(expected)
+			resCh <- res
+		}
+		switch kind {
+		case "dpub":
+			pc, err := mustConnectNSQD(tcpAddr)
+			if err != nil {
+				panic(err)
+			}
+			defer pc.Close()
+			identify(nil, pc, nil, frameTypeResponse)
+			t0 := time.Now()
+			cmd := nsq.DeferredPublish(topicName, d, body)
+			cmd.WriteTo(pc)
+			_, at := recv()
+			report(fmt.Sprintf("defer %v", d), at, t0.Add(d), t0.Add(d))
+		case "req":
+			topic.PutMessage(NewMessage(topic.GenerateID(), body))
+			m, _ := recv()
+			t0 := time.Now()
+			nsq.Requeue(m.ID, d).WriteTo(conn)
+			m2, at := recv()
+			if m2.ID != m.ID || m2.Attempts != 2 {
+				panic("requeue: another message came back")
+			}
+			report(fmt.Sprintf("requeue %v", d), at, t0.Add(d), t0.Add(d))
+		case "timeout":
+			t0 := time.Now()
+			topic.PutMessage(NewMessage(topic.GenerateID(), body))
+			m, first := recv()
+			m2, at := recv() // never answered: msg_timeout (1 s) must pass first
+			if m2.ID != m.ID || m2.Attempts != 2 {
+				panic("timeout: another message came back")
+			}
+			report("msg_timeout 1s", at, t0.Add(time.Second), first.Add(time.Second))
+		case "touch":
+			t0 := time.Now()
+			topic.PutMessage(NewMessage(topic.GenerateID(), body))
+			m, first := recv()
+			var lastTouch time.Time
+			for k := 0; k < int(d/time.Millisecond); k++ { // d encodes the number of touches
+				time.Sleep(600 * time.Millisecond)
+				lastTouch = time.Now()
+				nsq.Touch(m.ID).WriteTo(conn)
+			}
+			m2, at := recv()
+			if m2.ID != m.ID {
+				panic("touch: another message came back")
+			}
+			// allowed not before min(lastTouch + 1s, publish + 3s (cap)); expected at min(lastTouch+1s, first+3s)
+			nb := lastTouch.Add(time.Second)
+			if c := t0.Add(3 * time.Second); c.Before(nb) {
+				nb = c
+			}
+			exp := lastTouch.Add(time.Second)
+			if c := first.Add(3 * time.Second); c.Before(exp) {
+				exp = c
+			}
+			report(fmt.Sprintf("%d touches", int(d/time.Millisecond)), at, nb, exp)
+		}
+	}
+	idx := 0
+	for k := 0; k < rounds; k++ {
+		for _, d := range []time.Duration{time.Duration(1+r.Intn(40)) * time.Millisecond, time.Duration(90+r.Intn(30)) * time.Millisecond, time.Duration(200+r.Intn(400)) * time.Millisecond} {
+			for _, kind := range []string{"dpub", "req"} {
+				idx++
+				wg.Add(1)
+				go scenario(kind, idx, d)
+			}
+		}
+		idx++
+		wg.Add(1)
+		go scenario("timeout", idx, 0)
+		for _, touches := range []int{1, 2, 6} {
+			idx++
+			wg.Add(1)
+			go scenario("touch", idx, time.Duration(touches)*time.Millisecond)
+		}
+	}
+	wg.Wait()
+	close(resCh)
+	var worstLate time.Duration
+	n, lateCount := 0, 0
+	bound := opts.QueueScanRefreshInterval + 3*opts.QueueScanInterval + 250*time.Millisecond
+	for res := range resCh {
+		n++
+		if res.early < 0 {
+			fmt.Printf("WALL-ERROR %s\n", res.what)
+			t.Fail()
+			continue
+		}
+		if res.early > 0 {
+			fmt.Printf("ORACLE-FAIL EARLY (wall clock): %s delivered %v before it was allowed\n", res.what, res.early)
+			t.Fail()
+		}
+		if res.late > worstLate {
+			worstLate = res.late
+		}
+		if res.late > bound {
+			lateCount++
+			fmt.Printf("WALL-LATE %s: %v after the deadline (bound %v on an idle machine)\n", res.what, res.late, bound)
+		}
+	}
+	fmt.Printf("WALL-OK scenarios=%d worst-lateness=%v beyond-bound=%d bound=%v\n", n, worstLate, lateCount, bound)
 }
